@@ -22,13 +22,18 @@ DRIVER = "dm_chunks"
 LEAN_MODULES = ["DaskModel.Props.C23"]
 CASE_TIMEOUT_S = 20
 LEVEL_TEXT = ("Lean 4 theorems over a transliteration of normalize_chunks / blockdims_from_blockshape and of the rechunk "
-              "planner kernels: normalize_sum_nonneg (whatever normalize_chunks returns is, per dimension, a non-empty tuple of "
-              "non-negative sizes adding up to the shape - no hypothesis on the spec), normalize_sum_pos (positive sizes or "
-              "exactly (0,), for int/-1/None/dict/byte-string/auto entries; explicit tuples must themselves be positive), "
-              "divide_to_width_spec, merge_homogeneous_spec. auto_chunks is abstracted to its returned tuple: its "
-              "post-condition and the byte-limit clause are validated on every real output, not proved. Rechunk: "
-              "_breakpoints/_intersect_1d/old_to_new are transliterated and diffed; the covering theorem is stated in "
-              "Props/C23.lean (see file for its current status); plan heuristics are validated stage by stage.")
+              "kernels. normalize: normalize_sum_nonneg (whatever normalize_chunks returns is, per dimension, a non-empty "
+              "tuple of non-negative sizes adding up to the shape - no hypothesis on the spec), normalize_sum_pos (positive "
+              "sizes or exactly (0,), for int/-1/None/dict/byte-string/auto entries; explicit tuples must themselves be "
+              "positive). rechunk: intersect1d_covers (for every pair of positive chunkings of equal length the "
+              "_intersect_1d state machine over the merged breakpoints returns, per new chunk, in-order non-empty pieces "
+              "inside their old chunks covering exactly its global range - proved by a loop invariant, no size bound), "
+              "rechunk_identity / rechunk_values_unchanged (slice+concatenate as _compute_rechunk = the new chunking of the "
+              "unchanged data), plan_compose (any sequence of valid stages composes to the last stage over unchanged data), "
+              "divide_to_width_spec, merge_homogeneous_spec. auto_chunks is abstracted to its returned tuple (post-condition "
+              "and byte limit validated on every real output); the planner's choice of stages is validated (every real stage "
+              "is checked to be a valid chunking, the hypothesis of plan_compose); n-d rechunk = product of the per-axis "
+              "plans (validated against NumPy).")
 LEVEL_NOTE = ("Trusted: Lean kernel + standard axioms; the correspondence harness (auto_chunks observed through a wrapper); "
               "NumPy getitem/concatenate on single blocks; float heuristics of auto_chunks / find_merge_rechunk are not modelled. "
               "Known finding: with previous_chunks auto chunks may exceed the limit by array.chunk-size-tolerance (documented).")
